@@ -40,6 +40,8 @@ def run(ch: Checker) -> None:
                      'is sent and the entry removed after it; an unknown id touches nothing', 2)
     ch.rule('C18.5', 'helpers that use self.subscribers[id] unguarded (KeyError not caught) are called only while id is known present: after insertion / membership test / iteration, '
                      'and before any helper that may delete it', 3)
+    ch.rule('C18.7', 'subscription ids are unique per subscription: EventSubscriber draws its id from a random / uuid source (or a counter), never from values every subscriber created by '
+                     'the same thread shares (pid, thread id, time): the dispatcher keys its table by this id and a second subscriber with the same id silently replaces the first', 1)
     ch.rule('C18.6', 'handle_event dispatches on event_name: SUBSCRIBE and UNSUBSCRIBE are distinct constants, everything else is broadcast', 1)
 
     disp = prog.class_named('EventDispatcher')
@@ -307,6 +309,9 @@ def run(ch: Checker) -> None:
     ch.check(ok6, 'C18.6', he, 'three kinds of event', 'SUBSCRIBE / UNSUBSCRIBE / broadcast(ev) (paths per kind: %s)' % n_kind,
              bad6[0] if bad6 else 'handle_event no longer dispatches SUBSCRIBE, UNSUBSCRIBE and everything-else-is-broadcast (paths per kind: %s)' % n_kind, witness=bad6[1] if bad6 else None)
 
+    # ---------------- C18.7
+    _sub_id_check(ch)
+
 
 def _filled_from_table(fn: FuncInfo, lname: str) -> bool:
     """every append to the local list happens inside a loop over the subscriber table and appends that loop's variable"""
@@ -322,3 +327,36 @@ def _filled_from_table(fn: FuncInfo, lname: str) -> bool:
                         and n_.args and norm(n_.args[0]) == di['key']:
                     good += 1
     return total > 0 and good == total
+
+
+def _sub_id_check(ch: Checker) -> None:
+    prog = ch.prog
+    es = prog.class_named('EventSubscriber')
+    UNIQUE = ('uuid.uuid4', 'uuid.uuid1', 'uuid4', 'uuid1', 'secrets.token_hex', 'secrets.token_bytes', 'secrets.token_urlsafe', 'os.urandom', 'itertools.count', 'next')
+    SHARED = ('os.getpid', 'getpid', 'threading.get_ident', 'get_ident', 'threading.current_thread', 'threading.get_native_id', 'time.time', 'time.monotonic', 'id')
+    n = 0
+    for fn in es.methods.values():
+        g = None
+        for st in walk_no_nested(fn.node):
+            if isinstance(st, ast.Assign) and len(st.targets) == 1 and attr_chain(st.targets[0]) == 'self.relay_sub_id' and norm(st.value) != 'None':
+                g = g or cfg_of(fn, prog, exc_edges=False)
+                vals = set()
+                for p in fpaths(g):
+                    for i, s2 in p.stmts():
+                        if s2 is st:
+                            vals.add(norm(Sym(p).value(st.value, i)))
+                for vt in sorted(vals) or [norm(st.value)]:
+                    n += 1
+                    calls = [attr_chain(c.func) or '' for c in ast.walk(ast.parse(vt, mode='eval')) if isinstance(c, ast.Call)]
+                    uniq = [c for c in calls if c in UNIQUE]
+                    shared = [c for c in calls if c in SHARED]
+                    if uniq:
+                        ch.ok('C18.7', fn, st, 'subscription id drawn from %s' % uniq[0])
+                    elif shared or not calls:
+                        ch.bad('C18.7', fn, st, 'the subscription id is %s, built only from %s: two subscribers set up by the same thread of one process get the same id, the dispatcher\'s table '
+                                                'keeps only the second channel, the first subscriber receives nothing after its ack and its unsubscribe closes the other one\'s channel'
+                               % (vt[:70], shared or 'constants'))
+                    else:
+                        ch.skip('C18.7', fn, st, 'source of the subscription id (%s) not recognised; uniqueness not decided' % vt[:70])
+    if n == 0:
+        ch.bad('C18.7', None, 'relay_sub_id', 'EventSubscriber no longer assigns relay_sub_id', module_rel=es.module.relpath)
